@@ -130,6 +130,10 @@ FragileX(M, X, A, s) ==
       \/ \E e \in ents : \E f \in ents : REq(val(e), RSub(val(f), SVal(s, val(f)))) /\ ~RIsZero(SVal(s, val(f)))
       \/ \E e \in ents : REq(val(e), RAdd(M[e[2]][e[1]], SVal(s, val(e)))))
 
+(* entries too fine for TLC's 32-bit integers: the tie analysis (and the reference distillation) would multiply *)
+(* their denominators; such instances are left to the relations of C06 and the structural contracts            *)
+BigDen(M, A) == \E e \in Pairs(A) : M[e[1]][e[2]][2] > 4096
+
 (* ---------------- lemmas checked on the design (C06) ---------------- *)
 Dominates(crs, x, a, b) ==
   \A j \in DOMAIN crs : IF crs[j].ty = "cost" THEN x[a][j] <= x[b][j] ELSE x[a][j] >= x[b][j]
